@@ -106,8 +106,7 @@ def tlc(module, cfg_text, wd, workers=None, timeout=1800, env=None, simulate=Non
         cmd += extra
     cmd += [os.path.join(wd, module + ".tla")]
     e = dict(os.environ)
-    if jvm:
-        e["JAVA_TOOL_OPTIONS"] = jvm
+    e["JAVA_TOOL_OPTIONS"] = jvm or "-Xss512m"      # recursive operators over long sequences need a deep stack
     if env:
         e.update(env)
     res = TlcResult()
